@@ -380,8 +380,6 @@ Proof.
   rewrite E. destruct k; auto. destruct (Nat.leb (sx x) (S k)); auto.
 Qed.
 
-(* payload sizes: every encodable record payload is far below 2^64 bytes when its variable part is *)
-Definition payload_small (r : lrec) : Prop := lenN (lrec_payload r) < 2 ^ 64.
 
 Theorem read_segment_prefix rs k :
   Forall (lrec_wf H) rs -> Forall payload_small rs ->
